@@ -122,8 +122,8 @@ def cks_extra(tier, seed):
             out.append({'kind': 'steps', 'ops': ops})
     # fold boundaries: every combination of four 16 bit words from a set of carry-critical values, as one 8 byte add and as a slice
     # (lane sums of 0xffff, 0x10000, 0x1fffe, 0x1ffff, 0x20000 ... exercise every carry of the final 64 -> 16 bit fold)
-    W = [0x0000, 0x0001, 0x0080, 0x8000, 0x7fff, 0x8001, 0xfffe, 0xffff, 0x0100, 0x00ff, 0xff00, 0x7f80]
     import itertools
+    W = [0x0000, 0x0001, 0x0080, 0x8000, 0x7fff, 0x8001, 0xfffe, 0xffff, 0x0100, 0x00ff, 0xff00, 0x7f80]
     combos = list(itertools.product(W, repeat=4))
     if tier == 'quick':
         r.shuffle(combos)
@@ -134,6 +134,21 @@ def cks_extra(tier, seed):
             b += [w >> 8, w & 255]
         out.append({'kind': 'steps', 'ops': [['b8', b]]})
         out.append({'kind': 'steps', 'ops': [['slice', b[:4]], ['b4', b[4:]]]})
+    # carries of the wide accumulators themselves: slices made of carry-critical 32 bit words (u32 accumulator: the sum of the 4 byte words
+    # and the fold of its carries overflow again) and 64 bit words (u64 accumulator), alone and behind a first add
+    W32 = [0xffffffff, 0xfffffffe, 0x00000001, 0x01000000, 0x80000000, 0x7fffffff, 0xffff0000, 0x0000ffff, 0x00010000, 0xfeffffff]
+    W64 = [0xffffffffffffffff, 0x0000000000000001, 0x0100000000000000, 0xfffffffffffffffe, 0x8000000000000000, 0x00000000ffffffff, 0xffffffff00000000]
+    c32 = list(itertools.product(W32, repeat=3)) + [tuple(r.choice(W32) for _ in range(r.choice([4, 5, 6, 7, 9]))) for _ in range(400 if tier == 'quick' else 6000)]
+    c64 = list(itertools.product(W64, repeat=3)) + [tuple(r.choice(W64) for _ in range(r.choice([2, 4, 5]))) for _ in range(200 if tier == 'quick' else 3000)]
+    if tier == 'quick':
+        r.shuffle(c32)
+        c32 = c32[:700] + [(0xffffffff, 0xffffffff, 0x01000000), (0xffffffff, 0xffffffff, 0xffffffff)]
+    for ws, nb in [(w, 4) for w in c32] + [(w, 8) for w in c64]:
+        b = []
+        for w in ws:
+            b += list(w.to_bytes(nb, 'big'))
+        out.append({'kind': 'steps', 'ops': [['slice', b]]})
+        out.append({'kind': 'steps', 'ops': [['b4', [0xff, 0xff, 0xff, 0xff]], ['slice', b], ['b2', [0, 1]]]})
     # wide register carries
     for n in [0, 1, 2, 3, 100, 8191, 8192, 8193]:
         for ln in [0, 1, 2, 3, 4, 5, 7, 8, 9, 15, 16, 17, 33]:
